@@ -127,6 +127,32 @@ pub fn c04_case(fam: &str, idx: usize, seed: u64) -> Option<Case> {
             let sp = c04_space();
             Some(c04_build(&case, seed, sp.get(idx)?, idx))
         }
+        "ignorecs" => {
+            // the receiver is configured to ignore a file checksum failure; one data byte is corrupted in flight
+            // (no CRC), the first Finished PDU is lost, and a duplicate of a first-pass PDU reaches the receiver
+            // while it waits for the ACK of Finished. Whatever the receiver goes on to say, the sender must not
+            // report a success that the receiver never reported.
+            let mut rng = Rng::derive(seed, 403, idx as u64);
+            let mut k = Knobs::base();
+            k.seg = 32;
+            k.crc = false;
+            k.nak = nak_procs()[rng.usize(4)];
+            k.handlers = vec![(Condition::FileChecksumFailure, FaultHandlerAction::Ignore)];
+            let size = 32 * (2 + rng.usize(3));
+            let c = content(&mut rng, size, 3, 32, 0xC04);
+            let mut sc = two_party(&case, rng.next_u64(), &k, c);
+            let n0 = first_pass_len(size, 32);
+            sc.rules.push(Rule { from: 0, to: 1, m: Matcher::Nth(1 + rng.usize(n0 - 2)), a: Action::Corrupt(12 + rng.usize(8), 0x40) });
+            sc.rules.push(Rule { from: 1, to: 0, m: Matcher::KindNth(Kind::Finished, 0), a: Action::Drop });
+            if rng.bool() {
+                sc.rules.push(Rule { from: 0, to: 1, m: Matcher::KindNth(Kind::AckFin, 0), a: Action::Drop });
+            }
+            let i = rng.usize(n0);
+            let d = *rng.pick(&[0u64, 1, 400, 1500, 2900]);
+            sc.scripts.push(Script { trig: Trigger::AfterInd(1, IndKind::Finished, 0), delay_ms: d, act: Act::Redeliver(0, i) });
+            let desc = format!("{} handlers={:?} size={} one byte corrupted (no CRC), first FIN lost, re-deliver e0#{} {} ms after the receiver's Finished indication [{}]", k.describe(), k.handlers, size, i, d, rules_desc(&sc.rules));
+            Some(Case::from(sc, &k, desc, false))
+        }
         "limit" => {
             // ACK(Finished) never arrives (optionally no Finished PDU reaches the sender either): the receiver
             // stays open through its positive-ACK limit, the limit fault and the cancelled state that follows;
@@ -296,7 +322,7 @@ pub fn run_c04(tier: &str, seed: u64, replay: Option<&str>) -> (Meta, Report) {
     let meta = Meta {
         property: "C04",
         level: "fault_enumeration",
-        rule: "acknowledged mode (and unacknowledged mode with closure, where the receiver stays open until its ACK limit), files of 2-3 segments and filestore-request-only transactions, every transaction carries a non-idempotent append request; ACK(Finished) is withheld once or twice so that the receiver stays open after its success indication; optional loss of the first ACK(EOF) / first Finished. sys = re-delivery, 1 ms and 1.5 s after the receiver's Finished indication, of EVERY PDU of the sender's first pass (singles), of EVERY ordered pair of them, and of each of the receiver's first three PDUs to the sender (complete). limit = every ACK(Finished) lost (optionally every Finished PDU too): the receiver runs into its positive-ACK limit and the cancelled state behind it, and every first-pass PDU is re-delivered 1 ms .. 3.1 s after that fault (complete). rand = 1-3 re-deliveries of any emitted PDU at random delays, prompts from the sending user, an extra dup/delay fault. distinct_nontrivial = distinct (config, size, event-order) signatures among runs where at least one late PDU reached the still-open transaction.".into(),
+        rule: "acknowledged mode (and unacknowledged mode with closure, where the receiver stays open until its ACK limit), files of 2-3 segments and filestore-request-only transactions, every transaction carries a non-idempotent append request; ACK(Finished) is withheld once or twice so that the receiver stays open after its success indication; optional loss of the first ACK(EOF) / first Finished. sys = re-delivery, 1 ms and 1.5 s after the receiver's Finished indication, of EVERY PDU of the sender's first pass (singles), of EVERY ordered pair of them, and of each of the receiver's first three PDUs to the sender (complete). limit = every ACK(Finished) lost (optionally every Finished PDU too): the receiver runs into its positive-ACK limit and the cancelled state behind it, and every first-pass PDU is re-delivered 1 ms .. 3.1 s after that fault (complete). ignorecs = receiver configured to ignore a checksum failure, one byte corrupted without CRC, first Finished lost, a first-pass PDU re-delivered in the window (the sender must not report a success the receiver never reported). rand = 1-3 re-deliveries of any emitted PDU at random delays, prompts from the sending user, an extra dup/delay fault. distinct_nontrivial = distinct (config, size, event-order) signatures among runs where at least one late PDU reached the still-open transaction.".into(),
         exhaustive: true,
         assumptions: vec!["window = from the receiver's first success indication to the end of its (first) transaction task; PDUs arriving after that start a new transaction and are out of scope, as the property says".into()],
         require: vec![("c04_windows_judged".into(), 500), ("c04_late_pdus_delivered_in_window".into(), 500), ("c04_checked:requests-once".into(), 500)],
@@ -315,6 +341,9 @@ pub fn run_c04(tier: &str, seed: u64, replay: Option<&str>) -> (Meta, Report) {
     let nl = c04_limit_space().len();
     rep.merge(run_cases(nl, "c04-limit", move |i| c04_case("limit", i, seed), judge_c04));
     rep.add("cases:limit", nl as u64);
+    let ni = if thorough { 40_000 } else { 600 };
+    rep.merge(run_cases(ni, "c04-ignorecs", move |i| c04_case("ignorecs", i, seed), judge_c04));
+    rep.add("cases:ignorecs", ni as u64);
     let nr = if thorough { 400_000 } else { 3_000 };
     rep.merge(run_cases(nr, "c04-rand", move |i| c04_case("rand", i, seed), judge_c04));
     rep.add("cases:rand", nr as u64);
